@@ -135,6 +135,28 @@ def relayout(rng, text):
     return "".join(out)
 
 
+def relayout_tokens(ck, rng, texts):
+    """Token-level re-layout: the same token sequence with line breaks, tabs and non-ASCII comments between ANY two
+    tokens (also inside a leaf pattern: between an operator and its operand, inside a range, inside a path).
+    Returns one variant per text (the text itself where the re-lexed variant is not token-identical)."""
+    import t1
+    seps = [" ", " ", "\n", "\n    ", "\t", " /* é日本 */ ", "\n// ü\n  ", "  "]
+    toks = t1.tokenize(ck, texts)
+    outs = []
+    for t, tk in zip(texts, toks):
+        if tk is None:
+            outs.append(t)
+            continue
+        parts = []
+        for (x, joint) in tk:
+            parts.append(x)
+            if not joint:
+                parts.append(rng.choice(seps))
+        outs.append("".join(parts).rstrip())
+    again = t1.tokenize(ck, outs)
+    return [o if (a is not None and b is not None and [x for x, _ in a] == [x for x, _ in b]) else t for t, o, a, b in zip(texts, outs, toks, again)]
+
+
 def anchor_part(ck):
     """Anchor selection (compile-time half): the parser model tie on relaid-out invocations, the
     hypotheses of C04_every_node_anchored on every table, and a direct check on the real parser's
@@ -155,6 +177,10 @@ def anchor_part(ck):
             v = relayout(rng, t)
             if v != t:
                 texts.append(v)
+    texts += [v for t, v in zip(base, relayout_tokens(ck, rng, base)) if v != t]
+    # leaf patterns that span lines by themselves
+    texts += ['v, S { a: "two\nlines", b: 1 }', 'v, S { a: =~ r"(?x) a\n b", b: 7 }', 'v, (>\n5, 7)', 'v, [1..=\n3, 9]', 'v, S { a: Status::\nActive, b: 1 }',
+              'v, S { name: "Ali\nce", age: 3 }', 'v, S { a: ==\n"x", b: 1 }']
     impl = ck.rt_batch(["run " + hexs(t) for t in texts], binary="inproc", harness="inproc")
     bad = parsetie.record(ck, texts, impl, "C04: relaid-out invocations (multi-line, tabs, CRLF, non-ASCII comments); span columns are characters")
     hyp = parsetie.compare.hyp
@@ -252,11 +278,15 @@ def e2e_part(ck):
 
     def make(rng, n):
         cases = t3.gen_cases(rng, n, "nearmiss")
-        for c in cases:
+        tokv = relayout_tokens(ck, rng, [c.pattern for c in cases])
+        for c, tv in zip(cases, tokv):
             pat = c.pattern
-            if 'r"' in pat or "r#" in pat or "'" in pat:
+            if rng.random() < 0.5:
+                v = tv          # breaks between any two tokens, also inside leaf patterns
+            elif 'r"' in pat or "r#" in pat or "'" in pat:
                 continue
-            v = relayout(rng, pat).replace("\r\n", "\n")   # the generated file is LF; CRLF is covered by the T4 parts
+            else:
+                v = relayout(rng, pat).replace("\r\n", "\n")   # the generated file is LF; CRLF is covered by the T4 parts
             t3.finish_case(c, c.decls_text, c.type_text, c.value_text, c.value_sexp, v)
         return cases
 
